@@ -262,14 +262,226 @@ fn case(t: &mut Tape, rec: &mut Rec<'_>) {
     rec.nontrivial = flips > 0 && (c.uses_optional || c.uses_tags || c.max_derefs > 0);
 }
 
+
+// ---------------------------------------------------------------------------------------------------------------
+// symbolic environments, decided by the local SMT solver (cvc5): the verification conditions over the *fully symbolic*
+// environment of the request's (principal type, action, resource type) must be consistent with concrete evaluation:
+//   * "holds for all well-formed inputs" (unsat) may not be contradicted by the generated concrete request and store;
+//   * a counterexample handed back must, evaluated concretely, refute the condition.
+// This reaches what the literal-environment check cannot: the term simplifications for non-literal terms, the SMT
+// encoding and the model decoder.
+
+use cedar_policy_symcc::solver::LocalSolver;
+use cedar_policy_symcc::CedarSymCompiler;
+use std::cell::RefCell;
+
+thread_local! {
+    static RT: tokio::runtime::Runtime = tokio::runtime::Builder::new_current_thread().enable_all().build().expect("tokio runtime");
+    static SOLVER: RefCell<Option<CedarSymCompiler<LocalSolver>>> = const { RefCell::new(None) };
+}
+
+fn with_solver<R>(f: impl FnOnce(&mut CedarSymCompiler<LocalSolver>, &tokio::runtime::Runtime) -> R) -> Option<R> {
+    SOLVER.with(|cell| {
+        let mut slot = cell.borrow_mut();
+        if slot.is_none() {
+            // a per-query time limit keeps hard queries from stalling a worker; hitting it is "unknown", i.e. a skip
+            let solver = RT.with(|rt| {
+                let _g = rt.enter();
+                LocalSolver::cvc5_with_args(["--tlimit=3000"])
+            });
+            match solver.ok().and_then(|s| CedarSymCompiler::new(s).ok()) {
+                Some(sc) => *slot = Some(sc),
+                None => return None,
+            }
+        }
+        let sc = slot.as_mut().unwrap();
+        Some(RT.with(|rt| f(sc, rt)))
+    })
+}
+
+fn drop_solver() {
+    SOLVER.with(|cell| {
+        let taken = cell.borrow_mut().take();
+        RT.with(|rt| {
+            let _g = rt.enter();
+            drop(taken);
+        });
+    });
+}
+
+fn concrete_single(auth: &Authorizer, p: &Policy, req: &cedar_policy::Request, ents: &cedar_policy::Entities) -> (bool, bool) {
+    let single = PolicySet::from_policies([p.clone()]).unwrap();
+    let resp = auth.is_authorized(req, &single, ents);
+    (resp.diagnostics().errors().count() > 0, resp.diagnostics().reason().count() > 0)
+}
+
+fn symbolic_case(t: &mut Tape, rec: &mut Rec<'_>) {
+    let o = AuthOpts { closed_16: 16, schema: SchemaOpts::default(), max_policies: 2, depth: rec.size(2, 2), path_budget: 3, traps: false };
+    let c = match scase::gen_auth_case(t, &o) {
+        Ok(c) => c,
+        Err(e) => {
+            rec.discard(e.split(':').next().unwrap_or("discard").to_string());
+            return;
+        }
+    };
+    rec.set_key(&c.render());
+    rec.render(|| c.render());
+    if has_dangling_reference(&c) {
+        // outside the inputs the verification conditions speak about (see the known finding of the literal check)
+        rec.discard("dangling-reference");
+        return;
+    }
+    let req_env = RequestEnv::new(EntityTypeName::from_str(&c.req.principal.ty).unwrap(), crate::bridge::euid(&c.req.action), EntityTypeName::from_str(&c.req.resource.ty).unwrap());
+    let auth = Authorizer::new();
+    let mut answered = 0;
+    for (id, _, _) in &c.policies {
+        let p: &Policy = c.pset.policy(&PolicyId::new(id)).unwrap();
+        let (errs, matches) = concrete_single(&auth, p, &c.creq, &c.ents);
+        let cp = match CompiledPolicy::compile(p, &req_env, &c.schema) {
+            Ok(cp) => cp,
+            Err(e) => {
+                rec.label(format!("skip:compile:{}", e.to_string().chars().take(40).collect::<String>()));
+                continue;
+            }
+        };
+        // (name, does the generated concrete input satisfy the condition?, what a counterexample must show)
+        for which in 0..3 {
+            let (name, holds_here) = match which {
+                0 => ("never_errors", !errs),
+                1 => ("always_matches", matches),
+                _ => ("never_matches", !matches),
+            };
+            let r = with_solver(|sc, rt| {
+                rt.block_on(async {
+                    match which {
+                        0 => sc.check_never_errors_with_counterexample_opt(&cp).await,
+                        1 => sc.check_always_matches_with_counterexample_opt(&cp).await,
+                        _ => sc.check_never_matches_with_counterexample_opt(&cp).await,
+                    }
+                })
+            });
+            let r = match r {
+                None => {
+                    rec.discard("no-solver");
+                    return;
+                }
+                Some(Err(e)) => {
+                    let m = e.to_string();
+                    rec.label(format!("skip:solver:{}", m.chars().take(40).collect::<String>()));
+                    // a solver that reported an error may be in an undefined state
+                    drop_solver();
+                    continue;
+                }
+                Some(Ok(r)) => r,
+            };
+            answered += 1;
+            rec.label("solver:answered");
+            match r {
+                None => {
+                    rec.label(format!("{name}:holds"));
+                    if !holds_here {
+                        rec.fail(format!("solver:unsound:{name}"), format!("policy {id}: `{name}` is reported to hold for every well-formed input of the environment, but on the generated request and store concrete evaluation gives errors={errs} matches={matches}\n{}", c.render()));
+                        return;
+                    }
+                }
+                Some(cex) => {
+                    rec.label(format!("{name}:counterexample"));
+                    let (e2, m2) = concrete_single(&auth, p, &cex.request, &cex.entities);
+                    let refutes = match which {
+                        0 => e2,
+                        1 => !m2,
+                        _ => m2,
+                    };
+                    if !refutes {
+                        rec.fail(format!("solver:bad-counterexample:{name}"), format!("policy {id}: the counterexample returned for `{name}` does not refute it: concrete evaluation on it gives errors={e2} matches={m2}\ncounterexample:\n{cex}\n{}", c.render()));
+                        return;
+                    }
+                }
+            }
+        }
+    }
+    // policy sets: the whole set against its first policy alone
+    if c.policies.len() >= 2 {
+        let first = &c.policies[0].0;
+        let sub = PolicySet::from_policies([c.pset.policy(&PolicyId::new(first)).unwrap().clone()]).unwrap();
+        let d_all = auth.is_authorized(&c.creq, &c.pset, &c.ents).decision() == Decision::Allow;
+        let d_sub = auth.is_authorized(&c.creq, &sub, &c.ents).decision() == Decision::Allow;
+        if let (Ok(ca), Ok(cs)) = (CompiledPolicySet::compile(&c.pset, &req_env, &c.schema), CompiledPolicySet::compile(&sub, &req_env, &c.schema)) {
+            for which in 0..4 {
+                let (name, holds_here) = match which {
+                    0 => ("always_allows", d_all),
+                    1 => ("always_denies", !d_all),
+                    2 => ("equivalent", d_all == d_sub),
+                    _ => ("implies(sub,all)", !d_sub || d_all),
+                };
+                let r = with_solver(|sc, rt| {
+                    rt.block_on(async {
+                        match which {
+                            0 => sc.check_always_allows_with_counterexample_opt(&ca).await,
+                            1 => sc.check_always_denies_with_counterexample_opt(&ca).await,
+                            2 => sc.check_equivalent_with_counterexample_opt(&ca, &cs).await,
+                            _ => sc.check_implies_with_counterexample_opt(&cs, &ca).await,
+                        }
+                    })
+                });
+                let r = match r {
+                    None => {
+                        rec.discard("no-solver");
+                        return;
+                    }
+                    Some(Err(e)) => {
+                        rec.label(format!("skip:solver:{}", e.to_string().chars().take(40).collect::<String>()));
+                        drop_solver();
+                        continue;
+                    }
+                    Some(Ok(r)) => r,
+                };
+                answered += 1;
+                rec.label("solver:answered");
+                match r {
+                    None => {
+                        rec.label(format!("{name}:holds"));
+                        if !holds_here {
+                            rec.fail(format!("solver:unsound:{name}"), format!("`{name}` is reported to hold for every well-formed input, but on the generated request and store the decisions are all={d_all} first-policy-only={d_sub} (true = Allow)\n{}", c.render()));
+                            return;
+                        }
+                    }
+                    Some(cex) => {
+                        rec.label(format!("{name}:counterexample"));
+                        let a = auth.is_authorized(&cex.request, &c.pset, &cex.entities).decision() == Decision::Allow;
+                        let s2 = auth.is_authorized(&cex.request, &sub, &cex.entities).decision() == Decision::Allow;
+                        let refutes = match which {
+                            0 => !a,
+                            1 => a,
+                            2 => a != s2,
+                            _ => s2 && !a,
+                        };
+                        if !refutes {
+                            rec.fail(format!("solver:bad-counterexample:{name}"), format!("the counterexample returned for `{name}` does not refute it: decisions on it are all={a} first-policy-only={s2} (true = Allow)\ncounterexample:\n{cex}\n{}", c.render()));
+                            return;
+                        }
+                    }
+                }
+            }
+        }
+    }
+    rec.nontrivial = answered > 0 && (c.uses_optional || c.uses_tags || c.max_derefs > 0);
+}
+
 pub fn property() -> Property {
     Property {
         id: "C18",
         rule: "Schema-G schema (extension types, tags, optional attributes, enums), 1..3 (thorough 1..4) strictly valid Policy-T policies, the request's environment, a conformant concrete request and store (entities present or absent). SymEnv::from_concrete_env, then \
                compile each policy and the policy set against that literal environment: every assert must reduce to a constant, and reading 'all asserts true' as 'refuted here' / 'some assert false' as 'holds here': never_errors holds <=> the policy does not error, \
                always_matches holds <=> it is satisfied, never_matches holds <=> it is not; always_allows / always_denies / implies (both directions) / equivalent / disjoint over the set and a random subset agree with the concrete authorizer. \
-               Symbolize / compile errors are counted skips. Non-trivial = some policy errors or matches and the set uses an optional attribute, a tag or an entity dereference.",
-        assumptions: &["World-S conformance", "reading of literal asserts as in the upstream test-suite (tests/utils/mod.rs)", "no SMT solver is involved: literal environments only"],
-        subs: vec![SubCheck { name: "literal-env", cases: (100_000, 2_000_000), tape_len: 4000, run: case, min_labels: &[("policy:errors", 700), ("policy:matches", 10_000), ("set:allow", 3000), ("store:closed", 60_000)] }],
+               Symbolize / compile errors are counted skips. The same conditions are also read through the unoptimised pipeline (deprecated check_* methods with an in-memory writer solver, which must not be needed). \
+               Non-trivial = some policy errors or matches and the set uses an optional attribute, a tag or an entity dereference. \
+               Sub-check `symbolic` (beyond the literal claim, same oracle): 1..2 policies compiled against the fully symbolic environment and decided by the local cvc5 (3 s per query; unknown = counted skip): a condition reported to hold for all inputs \
+               may not be contradicted by the generated concrete input, and every returned counterexample must refute its condition under concrete evaluation (3 single-policy and 4 policy-set conditions).",
+        assumptions: &["World-S conformance", "reading of literal asserts as in the upstream test-suite (tests/utils/mod.rs)", "literal-env: no SMT solver is involved", "symbolic: /usr/bin/cvc5 (1.0.3, pre-installed) answers; no answer = skip, never a violation"],
+        subs: vec![
+            SubCheck { name: "literal-env", cases: (100_000, 2_000_000), tape_len: 4000, run: case, min_labels: &[("policy:errors", 700), ("policy:matches", 10_000), ("set:allow", 3000), ("store:closed", 60_000)] },
+            SubCheck { name: "symbolic", cases: (1000, 40_000), tape_len: 4000, run: symbolic_case, min_labels: &[("solver:answered", 3000), ("never_errors:counterexample", 30), ("always_matches:holds", 25)] },
+        ],
     }
 }
